@@ -122,6 +122,7 @@ fn register_into(
                     CtrlData::WriteC => add_batch_k::<KWriteC>(b, bs, id, inner, ctx),
                     CtrlData::ReadAWriteC => add_batch_k::<KReadAWriteC>(b, bs, id, inner, ctx),
                     CtrlData::OptReadA => add_batch_k::<KOptReadA>(b, bs, id, inner, ctx),
+                    CtrlData::DerOptReadAWriteC => add_batch_k::<KDerOptReadAWriteC>(b, bs, id, inner, ctx),
                 }))
             }
         };
